@@ -529,7 +529,18 @@ class Gen:
                     cl.append({'k': 'v', 'v': self.lit(t)})
                 elif k == 'range':
                     a = self.rng.randint(-5, 5)
-                    cl.append({'k': 'range', 'lo': self.paren({'k': 'num', 't': t, 'v': a}), 'hi': self.paren({'k': 'num', 't': t, 'v': a + self.rng.randint(0, 4)})})
+                    b = a + self.rng.randint(0, 4)
+                    hi = {'k': 'num', 't': t, 'v': b}
+                    if self.chance(0.4):
+                        # bounds of different numeric types: the same whole number as a SINGLE (whether a
+                        # fractional bound is compared as written or converted to the selector's type first
+                        # is not settled by the property, so fractions are not generated)
+                        mant, bexp = b, 0
+                        while mant and mant % 2 == 0:
+                            mant //= 2
+                            bexp += 1
+                        hi = {'k': 'num', 't': 'S', 'm': mant, 'e': bexp}
+                    cl.append({'k': 'range', 'lo': self.paren({'k': 'num', 't': t, 'v': a}), 'hi': self.paren(hi)})
                 else:
                     cl.append({'k': 'is', 'o': self.pick(['lt', 'gt', 'le', 'ge', 'ne', 'eq']), 'v': self.lit(t)})
             cases.append({'cl': cl, 'body': self.block(sc, self.pick([0, 1, 1, 2]), depth + 1)})
